@@ -284,6 +284,39 @@ mod verif_bounded {
         expect(label, scen, "prune_expired_snapshots(created_at of A + 1) removes something", "SQLite", s.prune_expired_snapshots(a_created + 1).unwrap() > 0, true);
         expect(label, scen, "nothing listed afterwards", "SQLite", s.list_group_snapshots(&gid(1)).unwrap().len(), 0);
     }
+    // C02 / C18 / C07: a rollback of a group destroys no stored message, dedup record or welcome (it restores the group's MLS state,
+    // record, relays and per-epoch secrets only). Scope: 2 groups with 3 messages / 2 dedup records each and one welcome, one rollback.
+    #[test]
+    fn rollback_destroys_no_stored_messages_or_records() {
+        let label = "sqlite_bounded.rollback_destroys_no_stored_messages_or_records";
+        let (m, s) = stores();
+        for st in [&m as &dyn StoreOps, &s as &dyn StoreOps] {
+            for g in 1..=2u8 { st.put_group(group(g, g)); }
+            st.snap(1, "A");
+        }
+        for g in 1..=2u8 { for i in 0..3u8 {
+            let x = msg(g, g * 10 + i, 10 + i as u64, 10, Some(1), MessageState::Processed, "c", Tags::new());
+            m.save_message(x.clone()).unwrap(); s.save_message(x).unwrap();
+        } for j in 0..2u8 {
+            let p = pm(g * 40 + j, Some(g), Some(1), ProcessedMessageState::Processed);
+            m.save_processed_message(p.clone()).unwrap(); s.save_processed_message(p).unwrap();
+        } }
+        let mut g1 = group(1, 1); g1.epoch = 2; g1.last_message_id = Some(eid(12)); g1.last_message_at = Some(Timestamp::from(12u64)); g1.last_message_processed_at = Some(Timestamp::from(10u64));
+        m.save_group(g1.clone()).unwrap(); s.save_group(g1).unwrap();
+        m.rollback_group_to_snapshot(&gid(1), "A").unwrap(); s.rollback_group_to_snapshot(&gid(1), "A").unwrap();
+        let scen = "g1, g2 each hold 3 messages and 2 dedup records saved AFTER snapshot A of g1 was taken; g1 is rolled back to A";
+        for g in 1..=2u8 {
+            expect(label, scen, &format!("messages(g{g}).len() after the rollback of g1"), "SQLite", s.messages(&gid(g), None).unwrap().len(), 3);
+            expect(label, scen, &format!("messages(g{g}).len() after the rollback of g1"), "memory", m.messages(&gid(g), None).unwrap().len(), 3);
+            for j in 0..2u8 {
+                expect(label, scen, &format!("dedup record {} of g{g} still there", g * 40 + j), "SQLite", s.find_processed_message_by_event_id(&eid(g * 40 + j)).unwrap().is_some(), true);
+                expect(label, scen, &format!("dedup record {} of g{g} still there", g * 40 + j), "memory", m.find_processed_message_by_event_id(&eid(g * 40 + j)).unwrap().is_some(), true);
+            }
+        }
+        expect(label, scen, "g1 record is the one of snapshot A", "SQLite", s.find_group_by_mls_group_id(&gid(1)).unwrap(), Some(group(1, 1)));
+        expect(label, scen, "g1 record is the one of snapshot A", "memory", m.find_group_by_mls_group_id(&gid(1)).unwrap(), Some(group(1, 1)));
+        expect(label, scen, "g1 is still found under its nostr id", "SQLite", s.find_group_by_nostr_group_id(&[1; 32]).unwrap().map(|g| g.mls_group_id), Some(gid(1)));
+    }
     trait StoreOps {
         fn put_group(&self, g: Group); fn put_secret(&self, s: GroupExporterSecret); fn put_relays(&self, g: u8, r: BTreeSet<RelayUrl>); fn snap(&self, g: u8, name: &str);
         fn get_group(&self, g: u8) -> Option<Group>; fn get_relays(&self, g: u8) -> BTreeSet<String>; fn get_secret(&self, g: u8, e: u64) -> Option<[u8; 32]>;
